@@ -82,6 +82,40 @@ class FilesystemIsolation(ContextDecorator):
             if p is not None:
                 self._created.discard(self._abspath(p))
 
+    def _is_isolated(self, path: os.PathLike | str) -> bool:
+        """Whether a path was created inside the isolation, itself or as part of a created tree."""
+        current = self._abspath(path)
+        while True:
+            if current in self._created:
+                return True
+            parent = os.path.dirname(current)  # noqa: PTH120
+            if parent == current:
+                return False
+            current = parent
+
+    def _deny_overwrite(self, *paths: os.PathLike | str | None, any_kind: bool = False) -> None:
+        """Refuse to write to a file that existed before and is not isolated.
+
+        With any_kind, directories are protected, too (a rename replaces its target).
+        """
+        for p in paths:
+            if p is None or isinstance(p, int):
+                continue
+            exists = os.path.lexists(p) if any_kind else os.path.isfile(p)  # noqa: PTH110, PTH113
+            if exists and not self._is_isolated(p):
+                raise PermissionError(
+                    f"Attempted to modify non-isolated path: {self._abspath(p)}"
+                )
+
+    @staticmethod
+    def _not_yet_existing(*paths: os.PathLike | str | None) -> list[os.PathLike | str]:
+        """The given paths that do not exist yet, i.e., that a successful call creates."""
+        return [
+            p
+            for p in paths
+            if p is not None and not isinstance(p, int) and not os.path.lexists(p)  # noqa: PTH110
+        ]
+
     @staticmethod
     def _is_write_mode(mode: str) -> bool:
         """Check if a mode is write mode."""
@@ -106,6 +140,7 @@ class FilesystemIsolation(ContextDecorator):
         record_arg_idx: int | None = None,
         record_dst_idx: int | None = None,
         forget_arg_idx: int | None = None,
+        dst_may_be_dir: bool = False,
     ) -> Callable:
         """Create a tracked wrapper that uses positional indices."""
 
@@ -118,12 +153,24 @@ class FilesystemIsolation(ContextDecorator):
                 if abs_forget not in self._created:
                     raise PermissionError(f"Attempted to modify non-isolated path: {abs_forget}")
 
+            # Only paths that do not exist yet are created by the call; a pre-existing
+            # target must neither be overwritten nor be cleaned up on exit.
+            rec = self._get_arg(args, kwargs, record_arg_idx)
+            dst = self._get_arg(args, kwargs, record_dst_idx)
+            if dst is not None and dst_may_be_dir and os.path.isdir(dst):  # noqa: PTH112
+                # copy/move into an existing directory create an entry inside of it
+                src = self._get_arg(args, kwargs, 0)
+                if src is not None:
+                    name = os.path.basename(os.fspath(src).rstrip(os.sep))  # noqa: PTH119
+                    dst = os.path.join(dst, name)  # noqa: PTH118
+            self._deny_overwrite(rec)
+            self._deny_overwrite(dst, any_kind=bool(forget_path))
+            created = self._not_yet_existing(rec, dst)
+
             res = original_func(*args, **kwargs)
 
             try:
-                rec = self._get_arg(args, kwargs, record_arg_idx)
-                dst = self._get_arg(args, kwargs, record_dst_idx)
-                self._record_created(rec, dst)
+                self._record_created(*created)
             except Exception:  # noqa: BLE001
                 _LOGGER.warning("Failed to update bookkeeping for %s", original_func)
 
@@ -145,10 +192,14 @@ class FilesystemIsolation(ContextDecorator):
             # second positional arg may be mode, or kwargs['mode']
             file_arg = args[0] if args else kwargs.get("file")
             mode = kwargs.get("mode", args[1] if len(args) > 1 else "r")
-            f = original_func(*args, **kwargs)
+            created: list = []
             if isinstance(mode, str) and self._is_write_mode(mode):
+                self._deny_overwrite(file_arg)
+                created = self._not_yet_existing(file_arg)
+            f = original_func(*args, **kwargs)
+            if created:
                 try:
-                    self._record_created(file_arg)
+                    self._record_created(*created)
                 except Exception:  # noqa: BLE001
                     _LOGGER.warning("Failed to record created file: %s", file_arg)
             return f
@@ -171,11 +222,14 @@ class FilesystemIsolation(ContextDecorator):
 
         @functools.wraps(original_func)
         def tracked_os_open(path, flags, *args, **kwargs):
-            should_record = bool(flags & write_flags)
+            created: list = []
+            if flags & write_flags:
+                self._deny_overwrite(path)
+                created = self._not_yet_existing(path)
             fd = original_func(path, flags, *args, **kwargs)
-            if should_record:
+            if created:
                 try:
-                    self._record_created(path)
+                    self._record_created(*created)
                 except Exception:  # noqa: BLE001
                     _LOGGER.warning("Failed to record created path: %s", path)
             return fd
@@ -190,10 +244,13 @@ class FilesystemIsolation(ContextDecorator):
             abs_path = self._abspath(path_self)
             if abs_path not in self._created:
                 raise PermissionError(f"Attempted to rename/replace non-isolated path: {abs_path}")
+            self._deny_overwrite(target, any_kind=True)
+            created = self._not_yet_existing(target)
             res = original_func(path_self, target)
             try:
                 self._forget(path_self)
-                self._record_created(res)
+                if created:
+                    self._record_created(res)
             except Exception:  # noqa: BLE001
                 _LOGGER.warning(
                     "Failed to update bookkeeping for rename/replace: %s -> %s", path_self, target
@@ -210,10 +267,10 @@ class FilesystemIsolation(ContextDecorator):
             (os, "rename"): {"forget_arg_idx": 0, "record_dst_idx": 1},
             (os, "replace"): {"forget_arg_idx": 0, "record_dst_idx": 1},
             (shutil, "copyfile"): {"record_dst_idx": 1},
-            (shutil, "copy"): {"record_dst_idx": 1},
-            (shutil, "copy2"): {"record_dst_idx": 1},
+            (shutil, "copy"): {"record_dst_idx": 1, "dst_may_be_dir": True},
+            (shutil, "copy2"): {"record_dst_idx": 1, "dst_may_be_dir": True},
             (shutil, "copytree"): {"record_dst_idx": 1},
-            (shutil, "move"): {"forget_arg_idx": 0, "record_dst_idx": 1},
+            (shutil, "move"): {"forget_arg_idx": 0, "record_dst_idx": 1, "dst_may_be_dir": True},
             (Path, "mkdir"): {"record_arg_idx": 0},
             (Path, "touch"): {"record_arg_idx": 0},
             (Path, "write_text"): {"record_arg_idx": 0},
